@@ -428,6 +428,20 @@ fn hits_open_deviation(sp: &SProblem, sol: &Value) -> Option<&'static str> {
             if let Some(shift) = sp.vehicles[vt].shifts.get(shift_index) {
                 let dep = stops.first().unwrap()["departure"].as_i64().unwrap();
                 let arr = stops.last().unwrap()["arrival"].as_i64().unwrap();
+                let actual = stops.iter().flat_map(|s| acts_of(s).iter()).filter(|a| a["type"] == "break").count()
+                    + sol["violations"].as_array().map(|v| v.iter().filter(|x| x["vehicleId"] == t["vehicleId"] && x["shiftIndex"] == t["shiftIndex"]).count()).unwrap_or(0);
+                let mut required = 0;
+                for b in shift.breaks.iter() {
+                    let (s0, e0) = if b.offset { (dep + b.time.0, dep + b.time.1) } else { b.time };
+                    required += match b.policy.as_deref() {
+                        Some("skip-if-arrival-before-end") => (arr > e0) as usize,
+                        _ => (s0 <= arr && dep <= e0) as usize,
+                    };
+                }
+                // D8: a break that the policy would allow to skip but that was served anyway is "amount of breaks does not match"
+                if actual > required {
+                    return Some("break_served_though_skippable");
+                }
                 for b in shift.breaks.iter() {
                     let (s0, e0) = if b.offset { (dep + b.time.0, dep + b.time.1) } else { b.time };
                     let by_doc = match b.policy.as_deref() {
@@ -911,7 +925,7 @@ fn gen_cases(rng: &mut Rng, tier: Tier) -> Vec<Value> {
             sp.relations = derive_relations(rng, &sp, &sol);
         }
         let muts = if probe { vec![] } else { mutants(rng, &sp, &sol) };
-        cases.push(json!({"k": "solution", "sp": sp, "sol": sol, "muts": muts}));
+        cases.push(json!({"k": "solution", "gens": generations, "sp": sp, "sol": sol, "muts": muts}));
     }
     if probe {
         eprintln!("skipped: {skipped:?}");
